@@ -169,6 +169,9 @@ def check(tier, seed):
                 done = False
             except AssertionError:
                 done = False
+            except Exception as e:
+                res.violation('setup(): the handshake raised ' + type(e).__name__, {'property': 'C20', 'input': {'requested': requested, 'device_lists': lists, 'chunks': [c.decode('latin-1') for c in chunks]}, 'result': repr(e)}, 'c20-setup-raise|' + type(e).__name__)
+                continue
             sel, en = None, False
             # what the handshake must have selected by the time it stopped reading
             seen = []
